@@ -270,23 +270,23 @@ func classifySyncErr(err error) string {
 }
 
 type syncStats struct {
-	mu                                   sync.Mutex
-	deliveries, shorter, behaviours      int64
-	byErr                                map[string]int64
-	byKind                               map[string]int64
-	dumpsCompared, histCompared          int64
-	restarts, gossiped, localBlocks      int64
-	rivals                               int64
+	mu                              sync.Mutex
+	deliveries, shorter, behaviours int64
+	byErr                           map[string]int64
+	byKind                          map[string]int64
+	dumpsCompared, histCompared     int64
+	restarts, gossiped, localBlocks int64
+	rivals                          int64
 }
 
 // syncReplay replays one behaviour on a fresh follower and compares after every delivery.
 type syncOpts struct {
 	label     string // prefix of the evidence keys of this pass
-	warmViews bool // request historical views of every element before each delivery (C06: views requested before the switch)
-	gossip    bool // the account blocks of the batch reach the pool before the batch (C02)
-	restart   bool // the node is stopped and reopened between deliveries (C02: cold caches, across restarts)
-	rival     bool // before a delivery the node pools a RIVAL of the batch's first user block (same account, same height, other content)
-	local     bool // before a delivery the node pools a block of an otherwise idle account that acknowledges its current frontier
+	warmViews bool   // request historical views of every element before each delivery (C06: views requested before the switch)
+	gossip    bool   // the account blocks of the batch reach the pool before the batch (C02)
+	restart   bool   // the node is stopped and reopened between deliveries (C02: cold caches, across restarts)
+	rival     bool   // before a delivery the node pools a RIVAL of the batch's first user block (same account, same height, other content)
+	local     bool   // before a delivery the node pools a block of an otherwise idle account that acknowledges its current frontier
 }
 
 func syncReplay(run *core.Run, tree *momTree, b *syncBehaviour, n int64, st *syncStats, o syncOpts) {
